@@ -416,5 +416,75 @@ def r8_forbid_each(chk: Check) -> None:
     shared.forbid_each_property_rule(chk, "C01.R8", "readOnly properties in request schemas")
 
 
+# validation keywords a non-body parameter's schema may carry, by specification (OAS 2.0 "Parameter Object" for
+# non-body parameters / OAS 3.0.3 "Schema Object"); informative keywords (title, description, default) excluded
+SPEC_KEYWORDS = {
+    "OpenAPI20Parameter": {"type", "format", "items", "maximum", "exclusiveMaximum", "minimum", "exclusiveMinimum", "maxLength", "minLength", "pattern", "maxItems", "minItems", "uniqueItems", "enum", "multipleOf"},
+    "OpenAPI30Parameter": {"$ref", "multipleOf", "maximum", "exclusiveMaximum", "minimum", "exclusiveMinimum", "maxLength", "minLength", "pattern", "maxItems", "minItems", "uniqueItems", "maxProperties", "minProperties", "required", "enum", "type", "allOf", "oneOf", "anyOf", "not", "items", "properties", "additionalProperties", "format"},
+}
+
+
+def r9_keyword_whitelist_complete(chk: Check) -> None:
+    chk.rule("C01.R9", "COMPLETE(keyword whitelist of non-body parameters): from_open_api_to_json_schema keeps only the keys listed in `supported_jsonschema_keywords`; a validation keyword the specification allows there and the list lacks is silently DROPPED before generation, so values it forbids are generated as positive data (`not`, `enum`, `required`, a bound ...) - the list of each parameter class covers the specification's validation keywords", floor=2)
+    P = chk.project
+    mod = P.module("specs/openapi/parameters.py")
+    classes = {n.name: n for n in mod.tree.body if isinstance(n, ast.ClassDef)}
+
+    def value_of(cls_name: str, depth: int = 0) -> set[str] | None:
+        cls = classes.get(cls_name)
+        if cls is None or depth > 4:
+            return None
+        for st in cls.body:
+            tgt = st.targets[0] if isinstance(st, ast.Assign) else (st.target if isinstance(st, ast.AnnAssign) else None)
+            val = getattr(st, "value", None)
+            if isinstance(tgt, ast.Name) and tgt.id == "supported_jsonschema_keywords" and val is not None:
+                return elements(val, depth)
+        for b in cls.bases:  # inherited
+            if isinstance(b, ast.Name):
+                r = value_of(b.id, depth + 1)
+                if r is not None:
+                    return r
+        return None
+
+    def elements(e: ast.AST, depth: int) -> set[str] | None:
+        if isinstance(e, (ast.Tuple, ast.List, ast.Set)):
+            out: set[str] = set()
+            for el in e.elts:
+                if isinstance(el, ast.Starred):
+                    sub = elements(el.value, depth)
+                    if sub is None:
+                        return None
+                    out |= sub
+                elif const_str(el) is not None:
+                    out.add(const_str(el))  # type: ignore[arg-type]
+                else:
+                    return None
+            return out
+        if isinstance(e, ast.BinOp) and isinstance(e.op, ast.Add):
+            a, b = elements(e.left, depth), elements(e.right, depth)
+            return None if a is None or b is None else a | b
+        if isinstance(e, ast.Attribute) and e.attr == "supported_jsonschema_keywords" and isinstance(e.value, ast.Name):
+            return value_of(e.value.id, depth + 1)
+        if isinstance(e, ast.Call) and isinstance(e.func, ast.Name) and e.func.id in ("tuple", "list", "set", "frozenset", "sorted") and len(e.args) == 1:
+            return elements(e.args[0], depth)
+        return None
+
+    filt = P.func("specs/openapi/parameters.py:OpenAPIParameter.from_open_api_to_json_schema")
+    chk.expect("self.supported_jsonschema_keywords" in unparse(filt.node, 3000), "C01.R9", filt, "the filter reads self.supported_jsonschema_keywords", "the filter no longer reads the whitelist", filt.loc())
+    for cname, spec in SPEC_KEYWORDS.items():
+        have = value_of(cname)
+        construct = f"{cname}.supported_jsonschema_keywords covers the specification's validation keywords"
+        if have is None:
+            chk.undecided("C01.R9", f"specs/openapi/parameters.py:{cname}", construct, "value of the list not statically evaluable")
+            continue
+        missing = sorted(spec - have)
+        if missing:
+            chk.violation("C01.R9", f"specs/openapi/parameters.py:{cname}", construct,
+                          f"{missing} allowed by the specification but not in the list: the keyword is removed from every inline parameter schema before generation, so positive data violates it (e.g. `enum: [active, deleted], not: {{enum: [deleted]}}` yields `deleted`)",
+                          f"specs/openapi/parameters.py:{classes[cname].lineno}")
+        else:
+            chk.ok("C01.R9", f"specs/openapi/parameters.py:{cname}", construct, f"{len(have)} keywords", f"specs/openapi/parameters.py:{classes[cname].lineno}")
+
+
 def rules(tier: str) -> list:  # type: ignore[type-arg]
-    return [r1_generator_plumbing, r2_length_keywords, r2b_width_checked, r3_property_stripping, r3b_mode_selection, r4_path_location, r5_filters_only_narrow, r6_token_kinds_agree, r7_traversal_order, rfwd_forwarding, r8_forbid_each]
+    return [r1_generator_plumbing, r2_length_keywords, r2b_width_checked, r3_property_stripping, r3b_mode_selection, r4_path_location, r5_filters_only_narrow, r6_token_kinds_agree, r7_traversal_order, rfwd_forwarding, r8_forbid_each, r9_keyword_whitelist_complete]
